@@ -90,6 +90,42 @@ def expand(fx, fn, arity):
     return b, oks
 
 
+def find_expander_table(fx, rep, rule, ref=None):
+    """enumerate find_expander over its decision partition (names x arities 0..4 x receiver present/absent) and compare with the reference"""
+    ref = ref or json.load(open(os.path.join(HERE, 'tables/reference/macros.json')))
+    fe = fx.body(MAC + 'find_expander')
+    rep.analysed(fe)
+    names = ref['find_expander']['names'] + ['no_such_macro']
+    table = {}
+    bad = None
+    for nm in names:
+        for n in range(0, 5):
+            for tgt in (True, False):
+                it = Interp(fe, {})
+                init = {1: ('const', nm), 2: ('some', ('target',)) if tgt else ('none',), 3: ('seq', tuple(('arg', i) for i in range(n)))}
+                try:
+                    res = it.run(init)
+                except Unmodelled as e:
+                    bad = str(e)
+                    res = []
+                vals = {repr(r[1]) for r in res}
+                if len(vals) != 1:
+                    bad = bad or 'ambiguous result for (%s, %d, %s): %s' % (nm, n, tgt, sorted(vals)[:3])
+                    continue
+                r = res[0][1]
+                if r[0] == 'some' and r[1][0] == 'fn':
+                    table.setdefault(r[1][1].rsplit('::', 1)[-1], []).append((nm, n, tgt))
+                elif r[0] != 'none':
+                    bad = bad or 'unrecognised result %r' % (r,)
+    if bad:
+        rep.violation(rule, 'find_expander/analysable', fe.loc(), 'find_expander not analysable (fail closed): %s' % bad)
+    want = {k: sorted(tuple(x) for x in v) for k, v in ref['find_expander']['table'].items()}
+    got = {k: sorted(v) for k, v in table.items()}
+    for k in sorted(set(want) | set(got)):
+        rep.check(want.get(k) == got.get(k), rule, 'find_expander/%s' % k, fe.loc(), 'selected for %s' % got.get(k),
+                  'find_expander selects %s for %s, reference: %s' % (k, got.get(k), want.get(k)))
+
+
 def run(fx, rep):
     rep.rule('R1', 'macro templates equal the reference expansions; find_expander table; has() sets test')
     rep.rule('R2', 'fold loop: cond -> exit on false -> bind item -> step -> bind accumulator; result after the loop; errors abort; forward iteration')
@@ -118,38 +154,7 @@ def run(fx, rep):
             g = got.get(field)
             rep.check(g == want, 'R1', 'template/%s/%s' % (name, field), b.loc(), '%s = %s' % (field, g),
                       'macro %s: %s expands to `%s`, reference expansion is `%s`' % (name, field, g, want))
-    # find_expander table
-    fe = fx.body(MAC + 'find_expander')
-    rep.analysed(fe)
-    names = ref['find_expander']['names'] + ['no_such_macro']
-    table = {}
-    bad = None
-    for nm in names:
-        for n in range(0, 5):
-            for tgt in (True, False):
-                it = Interp(fe, {})
-                init = {1: ('const', nm), 2: ('some', ('target',)) if tgt else ('none',), 3: ('seq', tuple(('arg', i) for i in range(n)))}
-                try:
-                    res = it.run(init)
-                except Unmodelled as e:
-                    bad = str(e)
-                    res = []
-                vals = {repr(r[1]) for r in res}
-                if len(vals) != 1:
-                    bad = bad or 'ambiguous result for (%s, %d, %s): %s' % (nm, n, tgt, sorted(vals)[:3])
-                    continue
-                r = res[0][1]
-                if r[0] == 'some' and r[1][0] == 'fn':
-                    table.setdefault(r[1][1].rsplit('::', 1)[-1], []).append((nm, n, tgt))
-                elif r[0] != 'none':
-                    bad = bad or 'unrecognised result %r' % (r,)
-    if bad:
-        rep.violation('R1', 'find_expander/analysable', fe.loc(), 'find_expander not analysable (fail closed): %s' % bad)
-    want = {k: sorted(tuple(x) for x in v) for k, v in ref['find_expander']['table'].items()}
-    got = {k: sorted(v) for k, v in table.items()}
-    for k in sorted(set(want) | set(got)):
-        rep.check(want.get(k) == got.get(k), 'R1', 'find_expander/%s' % k, fe.loc(), 'selected for %s' % got.get(k),
-                  'find_expander selects %s for %s, reference: %s' % (k, got.get(k), want.get(k)))
+    find_expander_table(fx, rep, 'R1', ref)
     # has(): select.test = true
     hb = fx.body(MAC + 'has_macro_expander')
     rep.analysed(hb)
